@@ -24,6 +24,7 @@ M = {
  "literals that cannot be represented": ("C17", "H-literal-errors-discarded", "needs an out-of-range literal, an exponent literal above 2**53 / not exactly representable, or an undefined escape"),
  "merely begin with a reserved word": ("C17", "H-keyword-prefix-idents", "needs a name that begins with if/else/return/raise/yield/defer"),
  "map printing keeps insertion order": ("C08", "H-map-print-lookalike-order", "needs a map with two scalar keys that print alike (floats equal to six decimals) printed twice / in two processes"),
+ "equality compare pairs in key order": ("C08", "H-eq-visits-pairs-in-hash-order", "needs an obj or map with >= 2 pairs whose values have an own == that prints or raises, compared twice / in two processes"),
  "SymHash2Str takes the read lock": ("C20", "H-symhash2str-race", "needs one evaluation interning new symbols while another converts symbols to strings"),
 }
 log = subprocess.run(["git", "-C", "/repo", "log", "--format=%h %s"], capture_output=True, text=True).stdout.splitlines()
